@@ -82,11 +82,11 @@ Proof.
 Qed.
 
 (* what the agreement says about a frame-less object: the counts are the lengths of the label lists *)
-Lemma inv_frameless_facts : forall s lP lA, Inv s ->
+Lemma inv_frameless_facts : forall s lP lA X, Inv s ->
   lk_strs (groups s) nm_POINT nm_LABELS = Some lP -> lk_strs (groups s) nm_ANALOG nm_LABELS = Some lA ->
-  Forall (holds (groups s)) (decl_pre lP lA).
+  Forall (holds (groups s)) X -> Forall (holds (groups s)) (decl_pre lP lA X).
 Proof.
-  intros s lP lA HI LP LA. apply inv_b_parts in HI. cbv zeta in HI. destruct HI as (_ & _ & _ & _ & _ & _ & _ & _ & I9 & _).
+  intros s lP lA X HI LP LA HX. apply inv_b_parts in HI. cbv zeta in HI. destruct HI as (_ & _ & _ & _ & _ & _ & _ & _ & I9 & _).
   unfold inv_report_of in I9. cbn [r_label_counts] in I9.
   destruct (lk_int0 (groups s) nm_POINT nm_USED) as [u|] eqn:Eu; [|discriminate].
   destruct (lk_int0 (groups s) nm_ANALOG nm_USED) as [a|] eqn:Ea; [|discriminate].
@@ -94,23 +94,24 @@ Proof.
   apply opt_eqb_some in C1, C2, C3, C4, C5, C6, C7, C8.
   rewrite (lk_strs_count _ _ _ _ LP) in C1. injection C1 as <-. rewrite (lk_strs_count _ _ _ _ LA) in C4. injection C4 as <-.
   unfold decl_pre, PU, PL, PD, PN, AU, AL, AD, AS, AO, AN.
-  repeat (apply Forall_cons); try apply Forall_nil;
+  repeat (apply Forall_cons); try exact HX;
     first [apply lk_int0_holds; assumption | apply lk_strs_holds; assumption | apply lk_count_holds; assumption].
 Qed.
 
-Theorem update_parameters_declare_keeps_inv : forall nP nA s s' lP lA,
-  Inv s -> MT (groups s) -> exact (hdr s) -> frames s = [] ->
+Theorem update_parameters_declare_keeps_inv : forall nP nA s s' lP lA XF,
+  Inv s -> MT (groups s) -> exact (hdr s) -> frames s = [] -> untouched XF -> Forall (holds (groups s)) XF ->
   lk_strs (groups s) nm_POINT nm_LABELS = Some lP -> lk_strs (groups s) nm_ANALOG nm_LABELS = Some lA ->
   nlen lP + nlen nP < 2147483648 -> nlen lA + nlen nA < 2147483648 ->
   h_nb_analogs (hdr s) * h_byframe (hdr s') < two64 -> (nlen lA + nlen nA) * h_byframe (hdr s') < two64 ->
   update_parameters f_key f_tosize f_div nP nA s = ROk tt s' ->
   Inv s' /\ MT (groups s') /\ exact (hdr s') /\ frames s' = [] /\ pro s' = pro s /\
   lk_strs (groups s') nm_POINT nm_LABELS = Some (lP ++ nP) /\ lk_strs (groups s') nm_ANALOG nm_LABELS = Some (lA ++ nA) /\
-  lk_int0 (groups s') nm_POINT nm_USED = Some (nlen lP + nlen nP) /\ lk_int0 (groups s') nm_ANALOG nm_USED = Some (nlen lA + nlen nA).
+  lk_int0 (groups s') nm_POINT nm_USED = Some (nlen lP + nlen nP) /\ lk_int0 (groups s') nm_ANALOG nm_USED = Some (nlen lA + nlen nA) /\
+  Forall (holds (groups s')) XF.
 Proof.
-  intros nP nA s s' lP lA HI HM Ex Fs LP LA SP SA W1 W2 H.
-  pose proof (inv_frameless_facts s lP lA HI LP LA) as F0.
-  destruct (hoare_run _ _ _ _ s (update_parameters_declare f_key f_tosize f_div f_key_nt f_tosize_nt nP nA s lP lA HM Fs F0 SP SA) eq_refl) as [_ Q].
+  intros nP nA s s' lP lA XF HI HM Ex Fs UX HX LP LA SP SA W1 W2 H.
+  pose proof (inv_frameless_facts s lP lA XF HI LP LA HX) as F0.
+  destruct (hoare_run _ _ _ _ s (update_parameters_declare f_key f_tosize f_div f_key_nt f_tosize_nt nP nA s lP lA XF HM Fs UX F0 SP SA) eq_refl) as [_ Q].
   specialize (Q tt s' H). destruct Q as [HM' [Fs' [Pr' D]]].
   set (np := nlen lP + nlen nP) in *. set (na := nlen lA + nlen nA) in *.
   unfold decl_post in D. fold np in D. fold na in D. rewrite Forall_forall in D.
@@ -142,7 +143,7 @@ Proof.
   { pose proof (r_int0_lk _ _ _ _ _ Rf) as X. rewrite hF in X. injection X as X.
     destruct (N.eq_dec (h_points (hdr s')) 0) as [Z1|Z1]; [|rewrite Hf by (left; exact Z1); symmetry; exact X].
     destruct (N.eq_dec (h_nb_analogs (hdr s')) 0) as [Z2|Z2]; [apply nb_frames_empty_shape; assumption|rewrite Hf by (right; exact Z2); symmetry; exact X]. }
-  split; [|repeat split; assumption].
+  split; [|repeat split; try assumption; apply Forall_forall; intros x Hx; apply D; cbn [In]; auto 20].
   apply inv_b_parts. cbv zeta. unfold inv_report_of. rewrite Fs'.
   cbn [r_points_hdr r_points_frames r_frames_hdr r_frames_stored r_subframes r_analogs_hdr r_analogs_meas r_analogs_frames r_label_counts r_label_order filter forallb].
   rewrite hF, hPU, hAU, (lk_strs_count _ _ _ _ hPL), hPD, hPN, (lk_strs_count _ _ _ _ hAL), hAD, hAS, hAO, hAN.
@@ -157,3 +158,178 @@ Proof.
     rewrite E1, E2. cbn [opt_eqb]. rewrite !N.eqb_refl. reflexivity.
 Qed.
 End WithOps.
+
+(* ---------- the declaration phase: POINT:RATE still zero, any number of names declared ---------- *)
+Section Declaring.
+Variable f_key : f32 -> outcome Z.
+Variable f_tosize : f32 -> outcome N.
+Variable f_div : f32 -> f32 -> f32.
+Hypothesis f_key_nt : forall x e, f_key x <> Throw e.
+Hypothesis f_tosize_nt : forall x e, f_tosize x <> Throw e.
+
+(* while the point rate is zero the header announces one sub-frame per frame (an object without data, ANALOG group not empty) *)
+Lemma update_header_byframe_rate0 : forall b s s' rate ga,
+  update_header f_key f_tosize f_div b s = ROk tt s' -> first_frame b s = None ->
+  r_float0 12 (groups s) nm_POINT nm_RATE = Ok rate -> f32_is_zero rate = true ->
+  group_named (groups s) nm_ANALOG = Ok ga -> g_params ga <> [] -> h_byframe (hdr s') = 1.
+Proof.
+  intros b s s' rate ga H Ff Hr Hz Hga Hne. apply update_header_factor in H. destruct H as [P _]. unfold uh_pure in P.
+  destruct (rate_points_pure f_key (groups s) (hdr s)) as [[rate' h2]| |] eqn:E2; cbn [obind] in P; try discriminate.
+  destruct (byframe_pure f_tosize f_div (groups s) (first_frame b s) rate' h2) as [h3| |] eqn:E3; cbn [obind] in P; try discriminate.
+  destruct (analogs_pure (groups s) h3) as [h4| |] eqn:E4; cbn [obind] in P; try discriminate.
+  destruct (rate_points_spec _ _ _ _ _ E2) as [R1 _]. rewrite Hr in R1. injection R1 as <-.
+  destruct (analogs_spec _ _ _ E4) as [_ [_ [B4 _]]].
+  destruct (frames_spec _ _ _ P) as [_ [_ [B5 _]]].
+  rewrite B5, B4. rewrite Ff in E3. unfold byframe_pure in E3. rewrite Hga in E3. cbn [obind] in E3.
+  assert (Nz : negb (nlen (g_params ga) =? 0) = true).
+  { destruct (g_params ga); [congruence|]. reflexivity. }
+  rewrite Nz, Hz in E3. destruct (negb (h_byframe h2 =? 1)) eqn:Q; injection E3 as <-; [reflexivity|].
+  apply Bool.negb_false_iff in Q. apply N.eqb_eq in Q. exact Q.
+Qed.
+
+Definition Vflt0 (r : f32) (p : param) : Prop := exists t, values_as_float p = Ok (r :: t).
+Lemma holds_vflt0 : forall k gs g n r, holds gs (g, n, Vflt0 r) -> r_float0 k gs g n = Ok r.
+Proof. intros k gs g n r [p [L V]]. cbn [fst snd] in *. destruct V as [t V]. unfold r_float0. rewrite L. cbn [obind]. rewrite V. cbn [obind]. apply at0_cons. Qed.
+Lemma r_float0_holds : forall k gs g n r, r_float0 k gs g n = Ok r -> holds gs (g, n, Vflt0 r).
+Proof.
+  intros k gs g n r H. unfold r_float0 in H. destruct (lookup gs g n) as [p| |] eqn:L; cbn [obind] in H; try discriminate.
+  exists p. cbn [fst snd]. split; [exact L|]. unfold Vflt0. destruct (values_as_float p) as [l| |]; cbn [obind] in H; try discriminate.
+  destruct l as [|a t]; [unfold at_, nlen in H; cbn in H; discriminate|]. rewrite at0_cons in H. injection H as ->. exists t. reflexivity.
+Qed.
+
+(* an object in its declaration phase: no frame, point rate zero, the agreement holds, labels lP / lA *)
+Definition declaring (s : state) (lP lA : list bstr) : Prop :=
+  Inv s /\ MT (groups s) /\ exact (hdr s) /\ frames s = [] /\
+  lk_strs (groups s) nm_POINT nm_LABELS = Some lP /\ lk_strs (groups s) nm_ANALOG nm_LABELS = Some lA /\
+  (exists rate, r_float0 12 (groups s) nm_POINT nm_RATE = Ok rate /\ f32_is_zero rate = true) /\
+  (h_byframe (hdr s) = 0 \/ h_byframe (hdr s) = 1).
+
+Lemma untouched_point_rate : forall V, untouched [(nm_POINT, nm_RATE, V)].
+Proof. intros V. unfold untouched, apart. repeat split; (apply Forall_cons; [cbn [fst snd]; first [left; discriminate|right; discriminate]|apply Forall_nil]). Qed.
+
+Theorem declare_step : forall nP nA s s' lP lA,
+  declaring s lP lA -> nlen lP + nlen nP < 2147483648 -> nlen lA + nlen nA < 2147483648 ->
+  update_parameters f_key f_tosize f_div nP nA s = ROk tt s' ->
+  declaring s' (lP ++ nP) (lA ++ nA) /\ pro s' = pro s /\ h_byframe (hdr s') = 1.
+Proof.
+  intros nP nA s s' lP lA (HI & HM & Ex & Fs & LP & LA & (rate & Hr & Hz) & Hb) SP SA H.
+  (* the header of s' announces one sub-frame: derived before the agreement, which needs the bound *)
+  destruct (update_parameters_from f_key f_tosize f_div nP nA s s' H) as [s1 [[Eh [Ef Ep]] U]].
+  set (XF := [(nm_POINT, nm_RATE, Vflt0 rate)]).
+  assert (HX : Forall (holds (groups s)) XF) by (constructor; [apply (r_float0_holds 12); exact Hr|constructor]).
+  pose proof (inv_frameless_facts s lP lA XF HI LP LA HX) as F0.
+  destruct (hoare_run _ _ _ _ s (update_parameters_declare f_key f_tosize f_div f_key_nt f_tosize_nt nP nA s lP lA XF HM Fs (untouched_point_rate _) F0 SP SA) eq_refl) as [_ Q].
+  specialize (Q tt s' H). destruct Q as [HM' [Fs' [Pr' D]]]. rewrite Forall_forall in D.
+  pose proof (update_header_agrees f_key f_tosize f_div true s1 s' U) as (G & _).
+  assert (hR : r_float0 12 (groups s') nm_POINT nm_RATE = Ok rate) by (apply holds_vflt0, D; unfold decl_post, XF; cbn [In]; auto 20).
+  assert (hAU : lk_int0 (groups s') nm_ANALOG nm_USED = Some (nlen lA + nlen nA)) by (apply holds_vint, D; unfold decl_post; cbn [In]; auto 20).
+  destruct (lk_int0_lookup _ _ _ _ hAU) as [pA LpA].
+  assert (Gx : exists ga, group_named (groups s') nm_ANALOG = Ok ga).
+  { unfold lookup in LpA. destruct (group_named (groups s') nm_ANALOG) as [ga| |]; cbn [obind] in LpA; try discriminate. eauto. }
+  destruct Gx as [ga Ga].
+  assert (B1 : h_byframe (hdr s') = 1).
+  { apply (update_header_byframe_rate0 true s1 s' rate ga U).
+    - unfold first_frame. rewrite Ef, Fs. reflexivity.
+    - rewrite <- G. exact hR.
+    - exact Hz.
+    - rewrite <- G. exact Ga.
+    - exact (lookup_params_nonempty _ _ _ _ _ LpA Ga). }
+  (* the channel count the header of s holds is bounded by the agreement of s *)
+  assert (NA : h_nb_analogs (hdr s) < 2147483648).
+  { destruct Hb as [Z0|Z1]; [unfold h_nb_analogs; rewrite Z0; cbn; lia|].
+    apply inv_b_parts in HI. cbv zeta in HI. destruct HI as (_ & _ & _ & _ & _ & I6 & _ & _ & I9 & _).
+    unfold inv_report_of in I6, I9. cbn [r_analogs_hdr r_label_counts] in I6, I9. rewrite Z1 in I6. cbn in I6.
+    destruct (lk_int0 (groups s) nm_POINT nm_USED) as [u|]; [|discriminate].
+    destruct (lk_int0 (groups s) nm_ANALOG nm_USED) as [a|] eqn:Ea; [|discriminate].
+    apply opt_eqb_some in I6. injection I6 as I6.
+    rewrite !andb_true_iff in I9. destruct I9 as [[[[[[[_ _] _] C4] _] _] _] _]. apply opt_eqb_some in C4.
+    rewrite (lk_strs_count _ _ _ _ LA) in C4. injection C4 as C4. lia. }
+  destruct (update_parameters_declare_keeps_inv f_key f_tosize f_div f_key_nt f_tosize_nt nP nA s s' lP lA XF HI HM Ex Fs (untouched_point_rate _) HX LP LA SP SA)
+    as (I' & M' & E' & F' & P' & L1 & L2 & _ & _ & _); try exact H; try (rewrite B1; unfold two64; lia).
+  split; [|split; [exact P'|exact B1]].
+  unfold declaring. repeat split; try assumption. - exists rate. split; assumption. - right. exact B1.
+Qed.
+End Declaring.
+
+(* ---------- from the constructor: any number of points, then any number of channels ---------- *)
+Section FromInit.
+Variable f_key : f32 -> outcome Z.
+Variable f_tosize : f32 -> outcome N.
+Variable f_div : f32 -> f32 -> f32.
+Variable f_is_zero : f32 -> bool.
+Hypothesis f_key_nt : forall x e, f_key x <> Throw e.
+Hypothesis f_tosize_nt : forall x e, f_tosize x <> Throw e.
+
+Lemma api_point_frameless : forall name s, frames s = [] ->
+  api_point f_key f_tosize f_div name s = update_parameters f_key f_tosize f_div [rtrim name] [] s.
+Proof. intros name s H. unfold api_point. unfold bind at 1. cbv [getS]. rewrite H. reflexivity. Qed.
+Lemma api_analog_frameless : forall name s, frames s = [] ->
+  api_analog f_key f_tosize f_div name s = update_parameters f_key f_tosize f_div [] [rtrim name] s.
+Proof. intros name s H. unfold api_analog. unfold bind at 1. cbv [getS]. rewrite H. reflexivity. Qed.
+
+Fixpoint run_ops (ops : list op) (s : state) : res state unit :=
+  match ops with
+  | [] => ROk tt s
+  | o :: t => match step f_key f_tosize f_div f_is_zero s o with
+              | ROk _ s1 => run_ops t s1 | RThrow e s1 => RThrow e s1 | RUB u => RUB u end
+  end.
+Lemma run_ops_app : forall a b s s', run_ops (a ++ b) s = ROk tt s' -> exists s1, run_ops a s = ROk tt s1 /\ run_ops b s1 = ROk tt s'.
+Proof.
+  induction a as [|o a IH]; intros b s s' H; cbn [app run_ops] in *; [eauto|].
+  destruct (step f_key f_tosize f_div f_is_zero s o) as [[] s1| |]; try discriminate. apply IH. exact H.
+Qed.
+
+Lemma declare_points_run : forall ps s s' lP lA, declaring s lP lA ->
+  nlen lP + nlen ps < 2147483648 -> nlen lA < 2147483648 ->
+  run_ops (map OPoint ps) s = ROk tt s' -> declaring s' (lP ++ map rtrim ps) lA /\ pro s' = pro s.
+Proof.
+  induction ps as [|n ps IH]; intros s s' lP lA D SP SA H; cbn [map run_ops] in H.
+  - injection H as <-. rewrite app_nil_r. auto.
+  - cbn [step] in H. destruct (api_point f_key f_tosize f_div n s) as [[] s1| |] eqn:E; try discriminate.
+    assert (Fs : frames s = []) by apply D. rewrite (api_point_frameless n s Fs) in E.
+    assert (S1 : nlen lP + nlen [rtrim n] < 2147483648) by (unfold nlen in *; cbn [length] in *; lia).
+    assert (S2 : nlen lA + nlen (@nil bstr) < 2147483648) by (unfold nlen in *; cbn [length]; lia).
+    destruct (declare_step f_key f_tosize f_div f_key_nt f_tosize_nt [rtrim n] [] s s1 lP lA D S1 S2 E) as [D1 [P1 _]].
+    rewrite app_nil_r in D1.
+    destruct (IH s1 s' (lP ++ [rtrim n]) lA D1) as [D' P']; try assumption.
+    + unfold nlen in *. rewrite app_length. cbn [length] in *. lia.
+    + split; [|congruence]. cbn [map]. rewrite <- app_assoc in D'. exact D'.
+Qed.
+Lemma declare_analogs_run : forall cs s s' lP lA, declaring s lP lA ->
+  nlen lP < 2147483648 -> nlen lA + nlen cs < 2147483648 ->
+  run_ops (map OAnalog cs) s = ROk tt s' -> declaring s' lP (lA ++ map rtrim cs) /\ pro s' = pro s.
+Proof.
+  induction cs as [|n cs IH]; intros s s' lP lA D SP SA H; cbn [map run_ops] in H.
+  - injection H as <-. rewrite app_nil_r. auto.
+  - cbn [step] in H. destruct (api_analog f_key f_tosize f_div n s) as [[] s1| |] eqn:E; try discriminate.
+    assert (Fs : frames s = []) by apply D. rewrite (api_analog_frameless n s Fs) in E.
+    assert (S1 : nlen lP + nlen (@nil bstr) < 2147483648) by (unfold nlen in *; cbn [length]; lia).
+    assert (S2 : nlen lA + nlen [rtrim n] < 2147483648) by (unfold nlen in *; cbn [length] in *; lia).
+    destruct (declare_step f_key f_tosize f_div f_key_nt f_tosize_nt [] [rtrim n] s s1 lP lA D S1 S2 E) as [D1 [P1 _]].
+    rewrite app_nil_r in D1.
+    destruct (IH s1 s' lP (lA ++ [rtrim n]) D1) as [D' P']; try assumption.
+    + unfold nlen in *. rewrite app_length. cbn [length] in *. lia.
+    + split; [|congruence]. cbn [map]. rewrite <- app_assoc in D'. exact D'.
+Qed.
+
+Lemma declaring_init : declaring init [] [].
+Proof.
+  unfold declaring. split; [exact inv_init|]. split; [vm_compute; reflexivity|]. split; [reflexivity|]. split; [reflexivity|].
+  split; [vm_compute; reflexivity|]. split; [vm_compute; reflexivity|]. split; [exists 0; split; vm_compute; reflexivity|left; reflexivity].
+Qed.
+
+(* THE DECLARATION PHASE, from the constructor, for every list of names: after point(name) for each of ps and analog(name)
+   for each of cs — whatever the names, repeated ones included — header, parameters and (absent) data agree, the label lists
+   are the trimmed names in call order, and nothing else of the prologue changed *)
+Theorem declarations_from_init : forall ps cs s', nlen ps < 2147483648 -> nlen cs < 2147483648 ->
+  run_ops (map OPoint ps ++ map OAnalog cs) init = ROk tt s' ->
+  declaring s' (map rtrim ps) (map rtrim cs) /\ pro s' = pro init.
+Proof.
+  intros ps cs s' SP SA H. destruct (run_ops_app _ _ _ _ H) as [s1 [H1 H2]].
+  destruct (declare_points_run ps init s1 [] [] declaring_init) as [D1 P1]; try assumption; [unfold nlen; cbn [length]; lia|].
+  cbn [app] in D1.
+  destruct (declare_analogs_run cs s1 s' (map rtrim ps) [] D1) as [D2 P2]; try assumption.
+  - unfold nlen in *. rewrite map_length. exact SP.
+  - cbn [app] in D2. split; [exact D2|congruence].
+Qed.
+End FromInit.
